@@ -550,7 +550,7 @@ impl<'a> Gen<'a> {
                         4 => "debug.mem".to_string(),
                         5 => format!("emit.{}", self.ch.next()),
                         6 => format!("trace.{}", self.ch.next()),
-                        _ => format!("debug.mem.{}", self.ch.pick(8)),
+                        _ => format!("debug.mem.{}", 1 + self.ch.pick(8)),
                     };
                     let i = Ins::new(Nop, None, t);
                     out.push(Node::I(i));
@@ -1106,6 +1106,14 @@ impl<'a> Gen<'a> {
             }
         }
         mm.enter_frame(nloc);
+        if kernel {
+            // a kernel cannot hold two procedures with the same MAST root: make bodies distinct
+            let tag = 7000 + self.prog.kprocs.len() as u64;
+            for i in [Ins { op: Op::Push, imm: None, vals: vec![tag], txt: format!("push.{}", tag) }, Ins::new(Op::Drop, None, "drop")] {
+                mm.step(&i).unwrap();
+                body.push(Node::I(i));
+            }
+        }
         if kind >= 3 {
             // a dynamically invoked body starts by removing the hash from the stack
             let i = Ins::new(Op::Dropw, None, "dropw");
